@@ -515,9 +515,38 @@ class RealizeMemrefCasts(RewritePattern):
         # input or output, list to visit all uses of allocated memrefs:
         uses = [x.operation for x in op.dest.uses]
 
-        # insert "copy to" for first use as input
-        # walk parent op in order to find first use as input
+        def is_before_in_every_execution(first: Operation, second: Operation) -> bool:
+            """
+            Check that `first` is executed before `second` whenever `second` is executed: it precedes
+            `second` in the same block, or precedes the operation `second` is nested in.
+            """
+            block = first.parent_block()
+            ancestor: Operation | None = second
+            while ancestor is not None and ancestor.parent_block() is not block:
+                ancestor = ancestor.parent_op()
+            if ancestor is None or block is None:
+                return False
+            return block.get_operation_index(first) < block.get_operation_index(ancestor)
+
+        def is_after_in_every_execution(last: Operation, second: Operation) -> bool:
+            """
+            Check that `last` is executed after `second` whenever `second` is executed.
+            """
+            block = last.parent_block()
+            ancestor: Operation | None = second
+            while ancestor is not None and ancestor.parent_block() is not block:
+                ancestor = ancestor.parent_op()
+            if ancestor is None or block is None:
+                return False
+            return block.get_operation_index(last) > block.get_operation_index(ancestor)
+
+        # insert "copy to" if the memref is used as an input: before the first use (an earlier use as
+        # output must not be overwritten by the copy), and before every further use that can be executed
+        # without that first one (e.g. the first one is in a loop or branch)
+        # walk parent op in order to find the uses
         assert op.parent
+        ordered_uses: list[Operation] = []
+        used_as_input = False
         for use_op in op.parent.walk():
             if use_op not in uses:
                 continue
@@ -530,14 +559,19 @@ class RealizeMemrefCasts(RewritePattern):
                 is_input = op.results[0] in use_op.inputs
             else:
                 is_input = True
-            if is_input:
-                # insert copy op
-                copy_op = memref.CopyOp(source_op.source, op.dest)
-                rewriter.insert_op(copy_op, InsertPoint.before(use_op))
-                break
+            used_as_input = used_as_input or is_input
+            ordered_uses.append(use_op)
+        if used_as_input:
+            for i, use_op in enumerate(ordered_uses):
+                if not any(is_before_in_every_execution(prev, use_op) for prev in ordered_uses[:i]):
+                    # insert copy op
+                    copy_op = memref.CopyOp(source_op.source, op.dest)
+                    rewriter.insert_op(copy_op, InsertPoint.before(use_op))
 
-        # insert "copy from" for last use as output
-        # walk parent op in reverse order to find last use as output
+        # insert "copy from" for the last use as output, and for every earlier use as output
+        # that can be executed without that last one
+        # walk parent op in reverse order to find the uses as output
+        output_uses: list[Operation] = []
         for use_op in op.parent.walk(reverse=True):
             if use_op not in uses:
                 continue
@@ -553,10 +587,11 @@ class RealizeMemrefCasts(RewritePattern):
                 # don't know if input or output, default to yes
                 is_output = True
             if is_output:
-                # insert copy op
-                copy_op = memref.CopyOp(op.dest, source_op.source)
-                rewriter.insert_op(copy_op, InsertPoint.after(use_op))
-                break
+                if not any(is_after_in_every_execution(later, use_op) for later in output_uses):
+                    # insert copy op
+                    copy_op = memref.CopyOp(op.dest, source_op.source)
+                    rewriter.insert_op(copy_op, InsertPoint.after(use_op))
+                output_uses.append(use_op)
 
         # insert all ops
         rewriter.replace_op(op, ops_to_add)
